@@ -19,10 +19,10 @@ import (
 // ---- constant-offset bounds on wire bytes -------------------------------------------------
 
 type boundsCtx struct {
-	c       *Ctx
-	entry   map[*ssa.Parameter]int64 // lower bound on len(param) established by every caller
-	memo    map[boundsKey]int64
-	busy    map[boundsKey]bool
+	c     *Ctx
+	entry map[*ssa.Parameter]int64 // lower bound on len(param) established by every caller
+	memo  map[boundsKey]int64
+	busy  map[boundsKey]bool
 }
 
 type boundsKey struct {
@@ -276,10 +276,10 @@ func accessesOf(fn *ssa.Function) []access {
 
 // boundsStats: per function, how many constant-offset accesses exist and how many are proven in bounds.
 type boundsStat struct {
-	Total  int            `json:"total"`
-	Proven int            `json:"proven"`
-	ByKind map[string]int `json:"by_kind"`        // what -> total
-	ProvenByKind map[string]int `json:"proven_by_kind"` // what -> proven
+	Total         int            `json:"total"`
+	Proven        int            `json:"proven"`
+	ByKind        map[string]int `json:"by_kind"`        // what -> total
+	ProvenByKind  map[string]int `json:"proven_by_kind"` // what -> proven
 	firstUnproven string
 }
 
